@@ -426,3 +426,29 @@ func VerifC19_T_conflicts_ladder() {
 	sym.Assert(s1-s0 <= 40*(v+e)*(v+e), "C19.T4.conflict-detection-work-polynomial")
 	sym.Reach("C19.T.conflicts-ladder")
 }
+
+// G1d: three unrelated targets with directory outputs of arbitrary (clean) names: rejected iff some
+// pair is equal or nested. Names over an alphabet with characters on both sides of '/' in byte order,
+// so that a sorted neighbour comparison ("d", "d-", "d/d") is inside the search space.
+func VerifC11_G1_three_directories() {
+	n := tier(3, 4)
+	nodes := model.BuildNodeMap{}
+	ids := make([]string, 3)
+	for i := range ids {
+		id := sym.StringNAlpha(fmt.Sprintf("dir_%d", i), n, "d-/")
+		sym.Assume(id != "")
+		sym.Assume(!sym.HasPrefix(id, "/") && !sym.HasSuffix(id, "/") && !sym.Contains(id, "//"))
+		ids[i] = id
+		nodes[mkLabel(i)] = &model.Target{Label: mkLabel(i), Outputs: []model.Output{model.NewOutput("dir", id)}}
+	}
+	within := func(a, b string) bool { return sym.Or(sym.StrEq(a, b), sym.HasPrefix(a, b+"/")) }
+	want := false
+	for i := 0; i < 3; i++ {
+		for j := i + 1; j < 3; j++ {
+			want = sym.Or(want, sym.Or(within(ids[i], ids[j]), within(ids[j], ids[i])))
+		}
+	}
+	_, err := BuildGraph(nodes)
+	sym.Assert(sym.Iff(err != nil, want), "C11.G1.three-directories-rejected-iff-some-pair-nested")
+	sym.Reach("C11.G1.three-directories")
+}
